@@ -18,15 +18,24 @@ from harness import core, codec
 
 RULE = ("seeded random YAML files (plus a fixed corpus) mixing plaintext scalars with secrets of the stand-in cipher at "
         "arbitrary positions: mapping values, sequence elements, nested, anchored with aliases (scalars and containers), "
-        "plain / quoted-with-blanks / folded / literal layouts, near-miss markers, values under a foreign key, plaintexts "
-        "with trailing blanks or looking encrypted; the real eyaml_rotate_keys.main() runs on the file (with --backup) "
-        "using harness/tools/fake_eyaml.  Direct check when the exit status is 0: every encrypted value decrypts under "
-        "the new key to its old plaintext and no longer under the old key, aliases of one anchor are still one object, "
-        "everything else (keys, order, anchors, plain values) is unchanged, the stand-in was called once per distinct "
-        "secret; a file without secrets is neither rewritten nor backed up.  Correspondence: document after the run "
+        "plain / quoted-with-blanks / folded / literal layouts, double-quoted scalars padded with 0..40 blanks and line breaks, "
+        "literal and folded blocks with an indentation indicator whose marker comes after empty lines and up to 40 extra "
+        "blanks (also with the line break inside the marker), near-miss markers, values under a foreign key, plaintexts "
+        "with trailing blanks or looking encrypted; the real eyaml_rotate_keys.main() runs with --backup and "
+        "harness/tools/fake_eyaml on ONE file, or on 2-3 files in one invocation whose secrets carry the same anchor names "
+        "(every file judged by itself).  Direct check when the exit status is 0: every encrypted value of every file "
+        "decrypts under the new key to its old plaintext and no longer under the old key, is still an encrypted value, "
+        "aliases of one anchor are still one object, everything else (keys, order, anchors, plain values) is unchanged, the "
+        "stand-in was called once per distinct secret; a file without secrets is neither rewritten nor backed up.  The same "
+        "clauses on successful runs repeated with the k-th encrypt / decrypt call of the stand-in misbehaving (prints "
+        "nothing or only blanks with exit 0, exits 1) for every k, on string- and block-format secrets: a run that exits 0 "
+        "must have re-keyed everything; a non-zero status claims nothing.  Correspondence: document after the run "
         "(secrets compared without blanks/line breaks), exit status, written/not written, numbers of decrypt and encrypt "
-        "calls equal the Lean model's (of a run that exits non-zero only the status is compared).  is_eyaml_value is compared with the model's isEyaml on every string of length "
-        "<= 7 over {E,N,C,[,blank,newline,x} (exhaustive) .  distinct_nontrivial = distinct documents holding >= 1 secret.")
+        "calls equal the Lean model's, file by file (of a run that exits non-zero only the status is compared).  "
+        "is_eyaml_value is compared with the model's isEyaml and the rule on every string of length "
+        "<= 7 over {E,N,C,[,blank,newline,x} (exhaustive) and on a structured family: 0..40 blanks/line breaks in five "
+        "rhythms before the marker, inside it at one or every gap, and both, for ENC[ and seven near misses, four tails.  "
+        "distinct_nontrivial = distinct runs over documents holding >= 1 secret.")
 
 FAKE_EYAML = os.path.join(core.HERE, "tools", "fake_eyaml")
 SCRATCH_ROOT = os.path.join(core.VERIF, "out", "scratch")
@@ -70,9 +79,23 @@ NEAR = ["ENC", "enc[FAKE,k1,00]", "XENC[FAKE,k1,00]", "ENC(FAKE)", "E-N-C-[", "[
 BROKEN = ["ENC[x", "E N C [ garbage", "ENC[FAKE,k9,6869]", "ENC[PKCS7,Zm9v]", "ENC[FAKE,k1,zz]"]
 
 
+PADDED = ("quoted-pad", "literal-deep", "folded-deep")
+MAXPAD = 40
+
+
+def white(r, k, layout):
+    """k blanks / line breaks that precede the marker of a padded secret"""
+    if layout == "quoted-pad":
+        how = r.choice(["blanks", "blanks", "breaks", "mixed"])
+        return "".join(" " if how == "blanks" else "\n" if how == "breaks" else r.choice(" \n") for _ in range(k))
+    nb = r.randint(0, min(3, k))
+    return "\n" * nb + " " * (k - nb)
+
+
 class Gen:
-    def __init__(self, rng, odd=0.0):
+    def __init__(self, rng, odd=0.0, p_anchor=0.3):
         self.rng = rng
+        self.p_anchor = p_anchor
         self.n_anchor = 0
         self.scalar_anchors = []      # names of anchored secret scalars (aliasable later)
         self.container_anchors = []
@@ -82,11 +105,14 @@ class Gen:
         r = self.rng
         pt = r.choice(ODD_PLAINTEXTS) if r.random() < self.odd else r.choice(PLAINTEXTS)
         c = enc(OLD, pt)
-        layout = r.choice(["plain", "plain", "plain", "folded", "folded", "literal", "quoted-blanks", "quoted-lead"])
+        layout = r.choice(["plain", "plain", "plain", "folded", "folded", "literal", "quoted-blanks", "quoted-lead",
+                           "quoted-pad", "literal-deep", "folded-deep"])
         anchor = None
-        if r.random() < 0.3:
+        if r.random() < self.p_anchor:
             self.n_anchor += 1
             anchor = "s%d" % self.n_anchor
+        if layout in PADDED:
+            return ("leaf", anchor, ("secret", layout, c, white(r, r.randint(0, MAXPAD), layout)))
         return ("leaf", anchor, ("secret", layout, c))
 
     def leaf(self, p_secret):
@@ -149,8 +175,20 @@ def scalar_text(val, indent):
         return "null", []
     if kind == "str":
         return json.dumps(val[1]), []
-    _, layout, c = val
+    layout, c = val[1], val[2]
     pad = " " * (indent + 2)
+    if layout == "quoted-pad":
+        # a double-quoted scalar whose marker comes after up to MAXPAD blanks / line breaks
+        return json.dumps(val[3] + c), []
+    if layout in ("literal-deep", "folded-deep"):
+        # block scalar with an explicit indentation indicator: leading empty lines and deeper-indented lines are content;
+        # an odd amount of white space also puts a line break and the blanks INSIDE the marker (EN / C[)
+        ws = val[3]
+        nb, k = ws.count("\n"), ws.count(" ")
+        parts = [c[i:i + 26] for i in range(0, len(c), 26)]
+        if len(ws) % 2:
+            parts = [c[:2]] + [c[i:i + 26] for i in range(2, len(c), 26)]
+        return ("|2" if layout == "literal-deep" else ">2"), [""] * nb + [pad + " " * k + p for p in parts]
     if layout == "plain" and not c.startswith("ENC[FAKE"):
         return json.dumps(c), []
     if layout == "plain":
@@ -225,8 +263,35 @@ CORPUS = [
 ]
 
 
-def gen_cases(chk, n):
+def padded_corpus(tier):
+    """one secret after k = 0..MAXPAD blanks / line breaks (in front of and inside the marker) in every padded layout,
+    next to an ordinary secret (so that the file is rewritten whatever happens to the padded one)"""
+    out = []
+    r = random.Random(19)
+    for k in range(0, MAXPAD + 1):
+        for layout in PADDED:
+            if tier == "quick" and layout == "folded-deep" and k % 3:
+                continue
+            ws = (" " * k) if layout == "quoted-pad" else white(r, k, layout)
+            root = ("map", None, [("plain", ("leaf", None, ("secret", "plain", enc(OLD, "ordinary")))),
+                                  ("padded", ("leaf", "p" if k % 4 == 0 else None, ("secret", layout, enc(OLD, "padded by %d" % k), ws))),
+                                  ("again", ("alias", "p") if k % 4 == 0 else ("leaf", None, ("int", k)))])
+            out.append({"text": doc_text(root), "src": "padded"})
+        ws = "".join(r.choice(" \n") for _ in range(k))
+        out.append({"text": "only: %s\n" % json.dumps(ws + enc(OLD, "the only secret, after %d" % k)), "src": "padded"})
+    return out
+
+
+MULTI_CORPUS = [
+    [0, 0], [0, 11, 0], [2, 0], [0, 2, 0], [3, 3], [11, 0], [1, 1], [5, 0, 1],
+]
+
+
+def gen_cases(chk, n, n_multi):
     cases = [{"text": t, "src": "corpus"} for t in CORPUS]
+    cases += padded_corpus(chk.tier)
+    # several files in ONE invocation, the same anchor names on secrets of different files
+    cases += [{"texts": [CORPUS[i] for i in grp], "src": "multi-corpus"} for grp in MULTI_CORPUS]
     rng = random.Random(chk.seed)
     for i in range(n):
         odd = 0.25 if i % 5 == 0 else 0.0
@@ -236,7 +301,31 @@ def gen_cases(chk, n):
         if root[0] in ("leaf", "alias") and rng.random() < 0.8:
             root = ("map", None, [("k0", root)]) if root[0] == "leaf" else ("map", None, [("k0", ("leaf", None, ("int", 1)))])
         cases.append({"text": doc_text(root), "src": "random"})
+    for i in range(n_multi):
+        texts = []
+        for _f in range(rng.choice([2, 2, 3])):
+            # a fresh generator per file numbers its anchors from s1 again: the files share anchor names
+            g = Gen(rng, odd=0.0, p_anchor=rng.choice([0.3, 0.6, 0.9]))
+            root = g.node(rng.randint(1, 3), rng.choice([0.0, 0.35, 0.5, 0.7]))
+            if root[0] == "alias":
+                root = ("leaf", None, ("int", 1))
+            if root[0] == "leaf":
+                root = ("map", None, [("k0", root)])
+            texts.append(doc_text(root))
+        cases.append({"texts": texts, "src": "multi-random"})
     return cases
+
+
+def texts_of(case):
+    return case["texts"] if "texts" in case else [case["text"]]
+
+
+def witness(case):
+    """the JSON that replays a case"""
+    w = {"texts": case["texts"]} if "texts" in case else {"text": case["text"]}
+    if case.get("fault"):
+        w["fault"] = case["fault"]
+    return w
 
 
 # --------------------------------------------------------------------------- running the real tool
@@ -274,32 +363,40 @@ def share_classes(root):
     return {a: len(ids) for a, ids in seen.items()}
 
 
-def impl_run(text, backup=True):
-    """Run eyaml_rotate_keys.main() on a file holding `text`."""
+def impl_run(texts, backup=True, fault=None):
+    """Run eyaml_rotate_keys.main() ONCE on files holding `texts`; `fault` = "<encrypt|decrypt>:<k>:<mode>" makes
+    the k-th such call of the stand-in misbehave (see harness/tools/fake_eyaml)."""
     from yamlpath.commands import eyaml_rotate_keys
     d = tempfile.mkdtemp(prefix="c19-", dir=SCRATCH_ROOT)
-    out = {}
+    out = {"files": []}
     try:
         for k, v in KEYS.items():
             with open(os.path.join(d, k), "w") as fh:
                 fh.write(v)
-        path = os.path.join(d, "t.yaml")
-        with open(path, "wb") as fh:
-            fh.write(text.encode("utf-8"))
+        paths = []
+        for i, text in enumerate(texts):
+            path = os.path.join(d, "t%d.yaml" % i)
+            paths.append(path)
+            with open(path, "wb") as fh:
+                fh.write(text.encode("utf-8"))
+            f = {}
+            try:
+                before = load_doc(path)
+                f["before"] = codec.node_to_json(before)
+                f["before_share"] = share_classes(before)
+            except codec.OutOfModel as e:
+                return {"out_of_model": str(e)}
+            except Exception as e:  # the generated text is not loadable: not a case
+                return {"unloadable": type(e).__name__}
+            out["files"].append(f)
         logp = os.path.join(d, "eyaml.log")
-        try:
-            before = load_doc(path)
-            out["before"] = codec.node_to_json(before)
-            out["before_share"] = share_classes(before)
-        except codec.OutOfModel as e:
-            return {"out_of_model": str(e)}
-        except Exception as e:  # the generated text is not loadable: not a case
-            return {"unloadable": type(e).__name__}
         os.environ["YPV_EYAML_LOG"] = logp
+        if fault:
+            os.environ["YPV_EYAML_FAULT"] = fault
         argv = sys.argv
         sys.argv = ["eyaml-rotate-keys"] + (["-b"] if backup else []) + ["-q", "-x", FAKE_EYAML, "-r", os.path.join(d, "priv2"),
                                                                       "-u", os.path.join(d, "pub2"), "-i", os.path.join(d, "priv1"),
-                                                                      "-c", os.path.join(d, "pub1"), path]
+                                                                      "-c", os.path.join(d, "pub1")] + paths
         old = signal.signal(signal.SIGALRM, _alarm)
         signal.setitimer(signal.ITIMER_REAL, 60)
         devnull = open(os.devnull, "w")
@@ -322,28 +419,32 @@ def impl_run(text, backup=True):
             devnull.close()
             sys.argv = argv
             os.environ.pop("YPV_EYAML_LOG", None)
-        with open(path, "rb") as fh:
-            after_bytes = fh.read()
-        out["rewritten"] = after_bytes != text.encode("utf-8")
-        bak = path + ".bak"
-        out["bak"] = None
-        if os.path.exists(bak):
-            with open(bak, "rb") as fh:
-                out["bak"] = fh.read() == text.encode("utf-8")
+            os.environ.pop("YPV_EYAML_FAULT", None)
         calls = []
         if os.path.exists(logp):
             with open(logp) as fh:
-                calls = [l.split(" ", 1)[0] for l in fh.read().split("\n") if l]
-        out["encs"] = calls.count("encrypt")
-        out["decs"] = calls.count("decrypt")
-        try:
-            after = load_doc(path)
-            out["after"] = codec.node_to_json(after)
-            out["after_share"] = share_classes(after)
-        except codec.OutOfModel as e:
-            out["after_error"] = "out-of-model " + str(e)
-        except Exception as e:
-            out["after_error"] = type(e).__name__
+                calls = [l.split(" ") for l in fh.read().split("\n") if l]
+        out["encs"] = sum(1 for c in calls if c[0] == "encrypt")
+        out["decs"] = sum(1 for c in calls if c[0] == "decrypt")
+        out["enc_formats"] = [c[3] for c in calls if c[0] == "encrypt" and len(c) > 3 and c[1] != "FAULT"]
+        out["fault_hit"] = any(len(c) > 1 and c[1] == "FAULT" for c in calls)
+        for path, text, f in zip(paths, texts, out["files"]):
+            with open(path, "rb") as fh:
+                after_bytes = fh.read()
+            f["rewritten"] = after_bytes != text.encode("utf-8")
+            bak = path + ".bak"
+            f["bak"] = None
+            if os.path.exists(bak):
+                with open(bak, "rb") as fh:
+                    f["bak"] = fh.read() == text.encode("utf-8")
+            try:
+                after = load_doc(path)
+                f["after"] = codec.node_to_json(after)
+                f["after_share"] = share_classes(after)
+            except codec.OutOfModel as e:
+                f["after_error"] = "out-of-model " + str(e)
+            except Exception as e:
+                f["after_error"] = type(e).__name__
         return out
     finally:
         shutil.rmtree(d, ignore_errors=True)
@@ -425,29 +526,41 @@ def shape(j):
     return o
 
 
-def direct_check(case, r):
-    """The property itself on the real files (exit status 0 only).  Returns [(signature, what)]."""
+def secrets_of(before):
+    return [(a, l) for a, l in leaves(before) if l.get("k") == "str" and is_marker(l["v"])]
+
+
+def direct_check(f, rc):
+    """The property itself on ONE real file `f` of a run that ended with status `rc` (judged when 0).
+    Returns [(signature, what)]."""
     bad = []
-    counts = anchor_counts(r["before"])
-    before = drop_single_container_anchors(r["before"], counts)
-    after = drop_single_container_anchors(r["after"], counts) if r.get("after") is not None else None
-    secrets = [(a, l) for a, l in leaves(before) if l.get("k") == "str" and is_marker(l["v"])]
+    counts = anchor_counts(f["before"])
+    before = drop_single_container_anchors(f["before"], counts)
+    after = drop_single_container_anchors(f["after"], counts) if f.get("after") is not None else None
+    secrets = secrets_of(before)
     root_scalar = before.get("k") not in ("map", "seq")
     if not secrets:
-        if r["rewritten"] or r["bak"] is not None:
+        if f["rewritten"] or f["bak"] is not None:
             bad.append(("no-secret-but-written", "a file without encrypted values was rewritten or backed up"))
         return bad
-    if r["rc"] != 0:
+    if rc != 0:
         return bad
     if after is None:
-        bad.append(("after-unloadable", "the rotated file does not load: %s" % r.get("after_error")))
+        bad.append(("after-unloadable", "the rotated file does not load: %s" % f.get("after_error")))
         return bad
-    if r["bak"] is False:
+    if f["bak"] is False:
         bad.append(("backup-not-preimage", "the .bak of the rotated file is not the pre-image"))
+    aft = dict(leaves(after))
+    for addr, l in secrets:
+        l2 = aft.get(addr)
+        if l2 is not None and not (l2.get("k") == "str" and is_marker(l2.get("v"))) and dec(OLD, l["v"]) is not None:
+            bad.append(("secret-replaced-by-non-secret", "exit 0, but the encrypted value at %r (plaintext %r) is now %r" % (
+                addr, dec(OLD, l["v"]), l2.get("v"))))
+    if bad and bad[-1][0] == "secret-replaced-by-non-secret":
+        return bad
     if shape(before) != shape(after):
         bad.append(("frame-changed", "a non-encrypted key, value, order or anchor changed"))
         return bad
-    aft = dict(leaves(after))
     for addr, l in secrets:
         l2 = aft.get(addr)
         p_old = dec(OLD, l["v"])
@@ -470,15 +583,31 @@ def direct_check(case, r):
                 sig = "secret-not-rekeyed"
             bad.append((sig, "value at %r: old plaintext %r, under the new key %r, under the old key %r" % (
                 addr, p_old, p_new, still_old)))
-    for a, n in (r.get("after_share") or {}).items():
-        if n != 1 and (r.get("before_share") or {}).get(a) == 1:
+    for a, n in (f.get("after_share") or {}).items():
+        if n != 1 and (f.get("before_share") or {}).get(a) == 1:
             bad.append(("alias-no-longer-shared", "anchor %s is carried by %d different nodes after the rotation" % (a, n)))
-    distinct = set()
-    for addr, l in secrets:
-        distinct.add(("a", l["a"]) if l.get("a") else ("p", addr))
-    if not root_scalar and (r["decs"] != len(distinct) or r["encs"] > len(distinct)):
-        bad.append(("not-rotated-once", "%d distinct secrets, %d decrypt and %d encrypt calls" % (len(distinct), r["decs"], r["encs"])))
     return bad
+
+
+def distinct_secrets(f):
+    """number of cipher rounds the file needs: one per bare secret, one per anchor name carried by a secret
+    (0 for a document that is a single scalar: C19-F3, judged by its own signature)"""
+    counts = anchor_counts(f["before"])
+    before = drop_single_container_anchors(f["before"], counts)
+    if before.get("k") not in ("map", "seq"):
+        return 0
+    return len(set(("a", l["a"]) if l.get("a") else ("p", addr) for addr, l in secrets_of(before)))
+
+
+def once_check(r):
+    """rotated ONCE: over a whole successful run the stand-in was called once per distinct secret of every file"""
+    if r["rc"] != 0 or any(f.get("after") is None for f in r["files"]):
+        return []
+    want = sum(distinct_secrets(f) for f in r["files"])
+    if want and (r["decs"] != want or r["encs"] > want):
+        return [("not-rotated-once", "%d distinct secrets in %d file(s), %d decrypt and %d encrypt calls" % (
+            want, len(r["files"]), r["decs"], r["encs"]))]
+    return []
 
 
 def quiet_process():
@@ -496,16 +625,42 @@ def job(cases):
     os.makedirs(SCRATCH_ROOT, exist_ok=True)
     if len(cases) > 1:
         quiet_process()
-    res = [impl_run(c["text"]) for c in cases]
+    res = [impl_run(texts_of(c), fault=c.get("fault")) for c in cases]
     reqs, idx = [], []
     for i, r in enumerate(res):
-        if "before" in r:
-            reqs.append({"op": "C19.rotate", "old": OLD, "new": NEW, "doc": r["before"]})
-            idx.append(i)
+        for f in r.get("files", ()):
+            reqs.append({"op": "C19.rotate", "old": OLD, "new": NEW, "doc": f["before"]})
+            idx.append(f)
     ans = core.Driver().ask(reqs)
-    for i, a in zip(idx, ans):
-        res[i]["model"] = a
+    for f, a in zip(idx, ans):
+        f["model"] = a
     return res
+
+
+def fault_cases(cases, results, tier, rng):
+    """Second stage: successful runs repeated with the k-th encrypt / decrypt call of the stand-in misbehaving, for
+    EVERY k of the run (string- and block-format secrets, anchored ones, several files)."""
+    pool = [(c, r) for c, r in zip(cases, results)
+            if r.get("rc") == 0 and not c.get("fault") and 1 <= r.get("encs", 0) <= 6 and r["encs"] == r["decs"]]
+    fixed = [cr for cr in pool if cr[0]["src"] in ("corpus", "multi-corpus")]
+    rest = [cr for cr in pool if cr[0]["src"] not in ("corpus", "multi-corpus")]
+    blocky = [cr for cr in rest if "block" in cr[1]["enc_formats"]]
+    other = [cr for cr in rest if "block" not in cr[1]["enc_formats"]]
+    rng.shuffle(blocky)
+    rng.shuffle(other)
+    nb, no = (14, 10) if tier == "quick" else (150, 100)
+    out = []
+    for c, r in fixed + blocky[:nb] + other[:no]:
+        for action in ("encrypt", "decrypt"):
+            for k in range(1, r["encs"] + 1):
+                modes = ["empty", "fail", "blank"] if tier != "quick" else ["empty", rng.choice(["fail", "blank"])]
+                for mode in modes:
+                    fc = dict(c)
+                    fc["fault"] = "%s:%d:%s" % (action, k, mode)
+                    fc["src"] = "fault"
+                    fc["formats"] = r["enc_formats"]
+                    out.append(fc)
+    return out
 
 
 def marker_cases(maxlen):
@@ -530,6 +685,100 @@ def marker_job(strings):
     return len(strings), out
 
 
+def marker_family():
+    """structured marker strings beyond the exhaustive bound: k = 0..MAXPAD blanks / line breaks (all blanks, all
+    breaks, alternating, irregular) in front of the marker, inside it (after E, N, C, or everywhere) and both, for
+    genuine markers and near misses, with and without a body"""
+    out = []
+    heads = [("E", "N", "C", "["), ("E", "N", "C"), ("E", "N", "C", "("), ("x", "E", "N", "C", "["), ("e", "n", "c", "["),
+             ("E", "N", "[", "C"), ("[", "E", "N", "C", "["), ("E", "N", "C", "x", "[")]
+    tails = ["", "FAKE,k1,6869]", " x", "\n"]
+    for k in range(0, MAXPAD + 1):
+        pads = {" " * k, "\n" * k, (" \n" * k)[:k], ("\n   " * k)[:k], ("  \n\n" * k)[-k:] if k else ""}
+        for ws in sorted(pads):
+            for head in heads:
+                for tail in tails:
+                    out.append(ws + "".join(head) + tail)                       # in front
+                    if k:
+                        out.append(ws.join(head) + tail)                        # inside, at every gap
+                        for g in range(1, len(head)):
+                            out.append("".join(head[:g]) + ws + "".join(head[g:]) + tail)   # inside, one gap
+                            out.append(ws + "".join(head[:g]) + ws + "".join(head[g:]) + tail)
+    return sorted(set(out))
+
+
+def judge(chk, case, r):
+    wit = witness(case)
+    if "out_of_model" in r:
+        chk.out_of_model += 1
+        return
+    if "unloadable" in r:
+        chk.count("generated-text-unloadable")
+        return
+    files = r["files"]
+    nsec = sum(len(secrets_of(f["before"])) for f in files)
+    chk.seen(json.dumps(wit, sort_keys=True) if nsec else None)
+    chk.count("exit:%s" % r["rc"])
+    chk.count("secrets:%s" % (nsec if nsec < 4 else "4+"))
+    chk.count("files-per-run:%d" % len(files))
+    if isinstance(r["rc"], str):
+        if any(ord(ch) > 127 for t in texts_of(case) for ch in t):
+            chk.out_of_model += 1
+            return
+        chk.violation(r["rc"], "eyaml-rotate-keys ended with %s" % r["rc"], wit)
+        return
+    nf = len(files)
+    faulted = bool(case.get("fault")) and r.get("fault_hit")
+    if case.get("fault"):
+        chk.count("fault:%s:%s" % (case["fault"].split(":")[0], "exit0" if r["rc"] == 0 else "failed") if faulted else "fault:not-reached")
+        if faulted and case["fault"].startswith("encrypt"):
+            k = int(case["fault"].split(":")[1])
+            fm = case.get("formats") or []
+            chk.count("fault:encrypt-of-%s-secret" % (fm[k - 1] if k <= len(fm) else "?"))
+    for i, f in enumerate(files):
+        for sig, what in direct_check(f, r["rc"]):
+            where = ("file %d of %d: " % (i + 1, nf) if nf > 1 else "") + (
+                "stand-in fault %s: " % case["fault"] if faulted else "")
+            chk.violation(sig, where + what, wit)
+    if faulted:
+        # a run in which the stand-in misbehaved: only the property's own clauses (above) are judged - when it
+        # exits 0 every secret must have been re-keyed; a non-zero status claims nothing (the model has no faults)
+        if r["rc"] != 0:
+            chk.count("fault:failed-run:%s" % ("some-file-rewritten" if any(f["rewritten"] for f in files) else "files-untouched"))
+        return
+    for sig, what in once_check(r):
+        chk.violation(sig, what, wit)
+    # correspondence with the model (one model run per file: every file starts with no anchor seen)
+    if r["rc"] != 0 and any(is_marker(dec(OLD, l["v"]) or "") for f in files for _a, l in secrets_of(f["before"])):
+        # a failed run over a document of the C19-F2 class (a plaintext that looks encrypted is stored
+        # raw and may be picked up again through an aliased container): the model does not re-walk
+        chk.out_of_model += 1
+        return
+    chk.disagreements_checked += 1
+    m_failed = any(f["model"]["failed"] for f in files)
+    if (r["rc"] != 0) != m_failed:
+        chk.disagreement("exit", "exit status %s, model failed=%s" % (r["rc"], m_failed), wit)
+    elif r["rc"] != 0:
+        # the property speaks about successful runs; of a failing run only the status is compared
+        chk.count("failed-run-status-only")
+    else:
+        for i, f in enumerate(files):
+            mo = f["model"]
+            written = f["rewritten"] or f["bak"] is not None
+            where = "file %d of %d: " % (i + 1, nf) if nf > 1 else ""
+            if written != mo["changed"]:
+                chk.disagreement("written", where + "file written=%s, model changed=%s" % (written, mo["changed"]), wit)
+            elif "after" in f and norm(drop_single_container_anchors(f["after"], anchor_counts(f["before"]))) != norm(
+                    drop_single_container_anchors(mo["doc"], anchor_counts(f["before"]))):
+                chk.disagreement("document", where + "document after the rotation differs from the model's", wit)
+        m_encs, m_decs = sum(f["model"]["encs"] for f in files), sum(f["model"]["decs"] for f in files)
+        if r["encs"] != m_encs or r["decs"] != m_decs:
+            chk.disagreement("calls", "stand-in calls enc/dec %s, model %s" % ((r["encs"], r["decs"]), (m_encs, m_decs)), wit)
+    if len(chk.samples) < 5 and nsec >= 2 and r["rc"] == 0:
+        chk.sample({"texts": [t[:300] for t in texts_of(case)], "rc": r["rc"], "encs": r["encs"],
+                    "model_encs": sum(f["model"]["encs"] for f in files)})
+
+
 def run(chk: core.Check):
     core.use_repo()
     os.makedirs(SCRATCH_ROOT, exist_ok=True)
@@ -544,71 +793,40 @@ def run(chk: core.Check):
                 chk.violation("marker-rule", "is_eyaml_value(%r) = %s, rule says %s" % (s, real, spec), {"s": s})
             chk.evaluations += 1
             return chk
+        c.setdefault("src", "replay")
         cases = [c]
         results = job(cases)
-        print("replay:", json.dumps({k: v for k, v in results[0].items() if k not in ("before", "after", "model")}))
+        print("replay:", json.dumps({k: v for k, v in results[0].items() if k != "files"}),
+              [{k: v for k, v in f.items() if k in ("rewritten", "bak", "after_error")} for f in results[0].get("files", [])])
     else:
-        cases = gen_cases(chk, 400 if tier == "quick" else 6000)
-        chunks = core.chunked(cases, 64)
-        results = [r for part in core.pmap(job, chunks) for r in part]
-        # the marker rule, exhaustively
+        cases = gen_cases(chk, *((400, 120) if tier == "quick" else (6000, 1500)))
+        results = [r for part in core.pmap(job, core.chunked(cases, 32)) for r in part]
+        fcases = fault_cases(cases, results, tier, random.Random(chk.seed + 1))
+        fresults = [r for part in core.pmap(job, core.chunked(fcases, 16)) for r in part]
+        cases, results = cases + fcases, results + fresults
+        chk.extra_cov["multi_file_runs"] = sum(1 for c in cases if len(texts_of(c)) > 1)
+        chk.extra_cov["fault_runs"] = len(fcases)
+        # the marker rule: exhaustively on short strings, then the structured long family
         L = 7 if tier == "quick" else 8
         strings = list(marker_cases(L))
-        for n, bad in core.pmap(marker_job, core.chunked(strings, 32)):
+        family = marker_family()
+        chk.extra_cov["marker_family"] = len(family)
+        allbad = []
+        for n, bad in core.pmap(marker_job, core.chunked(strings + family, 32)):
             chk.evaluations += n
-            for s, real, mo, spec in bad[:20]:
-                if real != spec:
-                    chk.violation("marker-rule", "is_eyaml_value(%r) = %s, the rule says %s" % (s, real, spec), {"s": s})
-                else:
-                    chk.disagreement("marker-model", "isEyaml(%r): model %s, implementation %s" % (s, mo, real), {"s": s})
+            allbad += bad
+        allbad.sort(key=lambda t: (len(t[0]), t[0]))
+        chk.extra_cov["marker_mismatches"] = len(allbad)
+        for s, real, mo, spec in allbad[:3]:          # the shortest ones; the number of all is in the coverage record
+            if real != spec:
+                chk.violation("marker-rule", "is_eyaml_value(%r) = %s, the rule says %s" % (s, real, spec), {"s": s})
+            else:
+                chk.disagreement("marker-model", "isEyaml(%r): model %s, implementation %s" % (s, mo, real), {"s": s})
         chk.exhaustive = True
-        chk.extra_cov["exhaustive_bound"] = "marker rule: all strings of length <= %d over E,N,C,[,blank,newline,x" % L
+        chk.extra_cov["exhaustive_bound"] = ("marker rule: all strings of length <= %d over E,N,C,[,blank,newline,x; plus %d structured "
+                                             "strings with up to %d blanks/line breaks before and inside the marker" % (L, len(family), MAXPAD))
     for case, r in zip(cases, results):
-        if "out_of_model" in r:
-            chk.out_of_model += 1
-            continue
-        if "unloadable" in r:
-            chk.count("generated-text-unloadable")
-            continue
-        nsec = sum(1 for _a, l in leaves(r["before"]) if l.get("k") == "str" and is_marker(l["v"]))
-        chk.seen(case["text"] if nsec else None)
-        chk.count("exit:%s" % r["rc"])
-        chk.count("secrets:%s" % (nsec if nsec < 4 else "4+"))
-        if isinstance(r["rc"], str):
-            if any(ord(ch) > 127 for ch in case["text"]):
-                chk.out_of_model += 1
-                continue
-            chk.violation(r["rc"], "eyaml-rotate-keys ended with %s" % r["rc"], {"text": case["text"]})
-            continue
-        for sig, what in direct_check(case, r):
-            chk.violation(sig, what, {"text": case["text"]})
-        # correspondence with the model
-        mo = r["model"]
-        if r["rc"] != 0 and any(is_marker(dec(OLD, l["v"]) or "") for _a, l in leaves(r["before"])
-                                if l.get("k") == "str" and is_marker(l["v"])):
-            # a failed run over a document of the C19-F2 class (a plaintext that looks encrypted is stored
-            # raw and may be picked up again through an aliased container): the model does not re-walk
-            chk.out_of_model += 1
-            continue
-        chk.disagreements_checked += 1
-        written = r["rewritten"] or r["bak"] is not None
-        if (r["rc"] != 0) != mo["failed"]:
-            chk.disagreement("exit", "exit status %s, model failed=%s" % (r["rc"], mo["failed"]), {"text": case["text"]})
-        elif r["rc"] != 0:
-            # the property speaks about successful runs; of a failing run only the status is compared
-            chk.count("failed-run-status-only")
-        elif written != mo["changed"]:
-            chk.disagreement("written", "file written=%s, model changed=%s" % (written, mo["changed"]), {"text": case["text"]})
-        elif "after" in r and norm(drop_single_container_anchors(r["after"], anchor_counts(r["before"]))) != norm(
-                drop_single_container_anchors(mo["doc"], anchor_counts(r["before"]))):
-            chk.disagreement("document", "document after the rotation differs from the model's", {"text": case["text"]})
-        elif r["encs"] != mo["encs"] or (r["rc"] == 0 and r["decs"] != mo["decs"]):
-            # (after a failure the model does not count the repeated decrypt attempts inside an
-            # aliased container; it only records that they fail)
-            chk.disagreement("calls", "stand-in calls enc/dec %s, model %s" % ((r["encs"], r["decs"]), (mo["encs"], mo["decs"])),
-                             {"text": case["text"]})
-        if len(chk.samples) < 5 and nsec >= 2 and r["rc"] == 0:
-            chk.sample({"text": case["text"][:400], "rc": r["rc"], "encs": r["encs"], "model_encs": mo["encs"]})
+        judge(chk, case, r)
     chk.notes.append("the cipher is the deterministic stand-in harness/tools/fake_eyaml; real hiera-eyaml/PKCS7 is not available "
                      "and is represented by the two cipher laws (hypotheses of the theorems)")
     return chk
